@@ -1,4 +1,4 @@
-import Model.Pickle.VM
+import Model.Pickle.Encode
 import Model.Wire
 /-! Line protocol for the pickle VM.
 `PKL S <k> <safe…> X <k> (<code> <m> <n>)… E <k> (<m> <n> <flag>)… P <op>…` -/
@@ -171,5 +171,81 @@ def fcLine (ts : List String) : String :=
     match findClass (Gen.safeToImport ++ safe) (fun _ _ => f) m n with
     | .ok o => "ok " ++ render o
     | .error e => renderErr e
+
+end Pickle
+
+namespace Pickle
+open Wire
+
+/-- prefix-token parser for objects sent by the harness (`ENC` requests); fuel = token count -/
+def parseObj : Nat → List String → Option (PObj × List String)
+  | 0, _ => none
+  | fuel + 1, t :: rest =>
+    let many (n : Nat) (ts : List String) : Option (List PObj × List String) :=
+      n.fold (fun _ _ acc => do
+        let (xs, ts) ← acc
+        let (x, ts) ← parseObj fuel ts
+        pure (xs ++ [x], ts)) (some ([], ts))
+    if t == "N" then some (.none, rest)
+    else if t == "T" then some (.bool true, rest)
+    else if t == "F" then some (.bool false, rest)
+    else if t == "NT" then some (.noneType, rest)
+    else if t == "C" then do
+      let (f, r) ← parseObj fuel rest; let (a, r) ← parseObj fuel r; pure (.call f a, r)
+    else if t == "O" then do
+      let (f, r) ← parseObj fuel rest; let (a, r) ← parseObj fuel r; pure (.newobj f a, r)
+    else if t == "B" then do
+      let (f, r) ← parseObj fuel rest; let (a, r) ← parseObj fuel r; pure (.built f a, r)
+    else
+      let body := (t.drop 1).toString
+      match t.toList.head? with
+      | some 'i' => body.toInt?.map (fun i => (.int i, rest))
+      | some 'f' => (decStr body).map (fun s => (.float s, rest))
+      | some 's' => (decStr body).map (fun s => (.str s, rest))
+      | some 'b' => (decStr body).map (fun s => (.bytes s, rest))
+      | some 'G' =>
+        match body.splitOn "/" with
+        | [m, n] => do pure (.glob (← decStr m) (← decStr n), rest)
+        | _ => none
+      | some 'L' => do let n ← body.toNat?; let (xs, r) ← many n rest; pure (.list xs, r)
+      | some 'U' => do let n ← body.toNat?; let (xs, r) ← many n rest; pure (.tuple xs, r)
+      | some 'S' => do let n ← body.toNat?; let (xs, r) ← many n rest; pure (.set xs, r)
+      | some 'Z' => do let n ← body.toNat?; let (xs, r) ← many n rest; pure (.frozenset xs, r)
+      | some 'D' => do
+        let n ← body.toNat?
+        let (xs, r) ← many (2 * n) rest
+        let ps ← pairUp xs
+        pure (.dict ps, r)
+      | _ => none
+  | _, [] => none
+
+def showOp : Op → String
+  | .proto n => "proto=" ++ toString n | .frame => "frame" | .stop => "stop"
+  | .none => "none" | .newtrue => "newtrue" | .newfalse => "newfalse"
+  | .int i => "int=" ++ toString i | .float r => "float=" ++ encStr r | .str s => "str=" ++ encStr s
+  | .bytes s => "bytes=" ++ encStr s | .bytearray s => "bytearray=" ++ encStr s
+  | .emptyList => "emptylist" | .emptyTuple => "emptytuple" | .emptyDict => "emptydict" | .emptySet => "emptyset"
+  | .mark => "mark" | .pop => "pop" | .popMark => "popmark" | .dup => "dup"
+  | .append => "append" | .appends => "appends" | .setitem => "setitem" | .setitems => "setitems" | .additems => "additems"
+  | .list => "list" | .tuple => "tuple" | .tuple1 => "tuple1" | .tuple2 => "tuple2" | .tuple3 => "tuple3"
+  | .dict => "dict" | .frozenset => "frozenset"
+  | .put i => "put=" ++ toString i | .get i => "get=" ++ toString i | .memoize => "memoize"
+  | .global m n => "global=" ++ encStr m ++ "," ++ encStr n | .stackGlobal => "stackglobal"
+  | .instOp m n => "inst=" ++ encStr m ++ "," ++ encStr n | .obj => "obj"
+  | .newobj => "newobj" | .newobjEx => "newobjex" | .reduce => "reduce" | .build => "build"
+  | .ext c => "ext=" ++ toString c | .persid p => "persid=" ++ encStr p | .binpersid => "binpersid"
+  | .unsupported n => "unsupported=" ++ n
+
+/-- `ENC <obj tokens>`: the model pickler's op list for the object, then what the model VM makes of it -/
+def encLine (ts : List String) : String :=
+  match parseObj (ts.length + 1) ts with
+  | some (o, []) =>
+    let ops := dump o
+    let c : Cfg := { safe := Gen.safeToImport, env := fun _ _ => .ok, ext := [] }
+    let back := match run c {} ops with
+      | .ok (o', _) => if render o' == render o then "roundtrip-ok" else "roundtrip-DIFF " ++ render o'
+      | .error e => "roundtrip-" ++ renderErr e
+    back ++ " ops=" ++ " ".intercalate (ops.map showOp)
+  | _ => "bad-op"
 
 end Pickle
